@@ -105,6 +105,9 @@ def run(ctx, config='rel-all'):
             else:
                 ctx.violation('R8', 'Box', 'not-forwarded:%s::%s' % (tr.split('::')[-1], nm), 'impl %s for Box does not override %s: the default implementation reaches the boxed value through another method, so a value that overrides %s behaves differently once boxed' % (tr.split('::')[-1], nm, nm))
     ctx.floor('R8', n8, 28, 'provided trait methods Box must override')
+    # ---- R9 no mutating method of Box lost its body
+    from . import helpers as _helpers
+    _helpers.check_effect(ctx, config, 'R9', ('src/boxed.rs',))
     # ---- R1 gating
     dc = [b for b in db.fn_bodies() if b['meta'].get('name') == 'downcast' and (b['meta'].get('impl_adt') or '').endswith('boxed::Box')]
     ctx.floor('R1.downcast', len(dc), 2, 'Box::downcast (dyn Any, dyn Any + Send)')
